@@ -99,11 +99,11 @@ func RecipSig(rs []Recip) string {
 		switch r.K {
 		case "K":
 			p[i] = r.Key
-		case "L":
+		case "L", "Z":
 			if !r.Labels.Present {
-				p[i] = "L(absent)"
+				p[i] = r.K + "(absent)"
 			} else {
-				p[i] = "L(" + strings.Join(r.Labels.Ls, "+") + ")"
+				p[i] = r.K + "(" + strings.Join(r.Labels.Ls, "+") + ")"
 			}
 		default:
 			p[i] = r.K
@@ -132,6 +132,8 @@ func Recipients(w *world.World, rs []Recip) []age.Recipient {
 			out = append(out, world.GreaseRecipient{})
 		case "L":
 			out = append(out, world.LabelledRecipient{Present: r.Labels.Present, Labels: r.Labels.Ls})
+		case "Z":
+			out = append(out, world.NoStanzaRecipient{Present: r.Labels.Present, Labels: r.Labels.Ls})
 		case "F":
 			out = append(out, world.FailingRecipient{})
 		}
